@@ -384,6 +384,6 @@ def run_check(modname, tier, seed, replay=None):
             print("  failing verdict: %s | %s" % (v.get("sig"), (v.get("detail") or "")[:400].replace("\n", " ")))
             print("VIOLATION property=%s replay=%s" % (pid, path))
         return 1
-    if total.evaluations == 0:
-        print("ERROR: no case was evaluated (harness problem)"); return 2
+    if total.evaluations == 0 or worker_errors:
+        print("ERROR: harness problem (evaluations=%d, worker errors=%s)" % (total.evaluations, worker_errors[:2])); return 2
     return 0
